@@ -4,7 +4,7 @@ Every annotated function really returns what it declares."""
 import dataclasses
 import enum
 from contextlib import suppress
-from typing import Literal, Optional, Sequence, TypeVar, Union
+from typing import Generic, Literal, Optional, Sequence, TypeVar, Union
 
 from typing_extensions import Unpack
 
@@ -59,6 +59,63 @@ class IE(enum.IntEnum):
     y = 2
 
 
+class Halt(BaseException):
+    """a BaseException that is not an Exception (like KeyboardInterrupt), safe to raise in tests"""
+
+
+class AppError(Exception):
+    def __init__(self, code: int) -> None:
+        super().__init__(code)
+        self.code = code
+
+
+def lib_raise(kind: int) -> int:
+    """raises a different exception per kind; returns kind when nothing is raised"""
+    if kind == 1:
+        raise ValueError("v")
+    if kind == 2:
+        raise KeyError("k")
+    if kind == 3:
+        raise Halt("h")
+    if kind == 4:
+        raise AppError(7)
+    if kind == 5:
+        raise KeyboardInterrupt()
+    if kind == 6:
+        raise OSError(2, "nf")
+    return kind
+
+
+def lib_raise_group(kind: int) -> int:
+    """raises exception groups of every flavour"""
+    if kind == 1:
+        raise ExceptionGroup("eg", [ValueError("v"), KeyError("k")])
+    if kind == 2:
+        raise BaseExceptionGroup("stop", [Halt("h")])
+    if kind == 3:
+        raise BaseExceptionGroup("both", [ValueError("v"), Halt("h")])
+    if kind == 4:
+        raise ExceptionGroup("one", [ValueError("v")])
+    if kind == 5:
+        raise BaseExceptionGroup("kbd", [KeyboardInterrupt(), KeyError("k")])
+    if kind == 6:
+        raise ExceptionGroup("nested", [ExceptionGroup("in", [AppError(1)]), ValueError("w")])
+    return kind
+
+
+class Ctx(Generic[T]):
+    """a context manager whose __enter__ returns the wrapped object"""
+
+    def __init__(self, x: T) -> None:
+        self.x = x
+
+    def __enter__(self) -> T:
+        return self.x
+
+    def __exit__(self, *args: object) -> None:
+        return None
+
+
 def lib_ident(x: T) -> T:
     return x
 
@@ -106,7 +163,7 @@ def lib_either(x: T, y: U) -> Union[T, U]:
 
 
 __all__ = [
-    "A", "B", "C", "E", "Falsy", "IE", "Inner", "Outer", "Top", "Literal", "Optional", "Sequence", "T", "U", "Union", "Unpack",
+    "A", "AppError", "B", "C", "Ctx", "E", "Falsy", "Halt", "IE", "Inner", "Outer", "Top", "lib_raise", "lib_raise_group", "Literal", "Optional", "Sequence", "T", "U", "Union", "Unpack",
     "lib_dflt", "lib_either", "lib_first", "lib_ident", "lib_int", "lib_list", "lib_none", "lib_opt", "lib_pair",
     "lib_raise_if", "lib_str", "suppress",
 ]
